@@ -348,16 +348,30 @@ Definition outs_unpack_right (l r : nat) : list nat := rev (map (fun j => (3 * (
 Definition out_unpack_star (l r : nat) : nat := (3 * (l + r))%nat.
 
 (** ExprCompiler.visit_DesugaredArrayComp, one loop iteration once the element is computed.
-    inputs: 0 = array, 1 = count (int), 2 = element.
+    inputs (in order of first use): 0 = count (int), 1 = array, 2 = element.
     regs: 3 = usize, 4 = array, 5 = const 1, 6 = count + 1 *)
 Definition seq_comp_step (n : nat) : list instr :=
-  [ IOp OItoUsize [1%nat]; IOp (OReturn n) [0%nat; 3%nat; 2%nat];
-    IOp (OConst (CInt 1)) []; IOp OIadd [1%nat; 5%nat] ].
+  [ IOp OItoUsize [0%nat]; IOp (OReturn n) [1%nat; 3%nat; 2%nat];
+    IOp (OConst (CInt 1)) []; IOp OIadd [0%nat; 5%nat] ].
 Definition outs_comp_step : list nat := [4%nat; 6%nat].
 Definition seq_comp_init (n : nat) : list instr := [ IOp (ONewAllBorrowed n) []; IOp (OConst (CInt 0)) [] ].
 
 (** ArrayDiscardAllUsedCompiler for a linear element type.  input 0 = array *)
 Definition seq_discard_all_used (n : nat) : list instr := [ IOp (ODiscardAllBorrowed n) [0%nat] ].
+
+(** The two blocks of the compiled ArrayIter.__next__ that touch the array.
+    has-next block: inputs 0 = i, 1 = xs.  regs: 2 usize, 3 xs', 4 elem, 5 const 1, 6 i+1,
+    7 = (xs', i+1), 8 = (elem, iter'), 9 = Some(...) *)
+Definition seq_next_some (n : nat) : list instr :=
+  [ IOp OItoUsize [0%nat]; IOp (OBorrow n) [1%nat; 2%nat]; IOp (OConst (CInt 1)) []; IOp OIadd [0%nat; 5%nat];
+    IOp OMakeTuple [3%nat; 6%nat]; IOp OMakeTuple [4%nat; 7%nat]; IOp (OTag 1) [8%nat] ].
+Definition outs_next_some : list nat := [9%nat].
+(** exhausted block: input 0 = xs.  reg 1 = Nothing *)
+Definition seq_next_none (n : nat) : list instr := [ IOp (ODiscardAllBorrowed n) [0%nat]; IOp (OTag 0) [] ].
+Definition outs_next_none : list nat := [1%nat].
+(** ArrayIter.__iter__ wraps (xs, 0).  input 0 = xs; reg 1 = const 0, reg 2 = (xs, 0) *)
+Definition seq_iter_start : list instr := [ IOp (OConst (CInt 0)) []; IOp OMakeTuple [0%nat; 1%nat] ].
+Definition outs_iter_start : list nat := [2%nat].
 
 (* ----------------------------------------------------------- Part 4: drivers, rendering *)
 
@@ -380,7 +394,7 @@ Fixpoint comp_drive (n : nat) (elts : list val) (arr : val) (count : Z) : outcom
   match elts with
   | [] => Ok arr
   | e :: es =>
-      match run_outs (seq_comp_step n) outs_comp_step [arr; VInt count; e] with
+      match run_outs (seq_comp_step n) outs_comp_step [VInt count; arr; e] with
       | Ok [arr'; VInt count'] => comp_drive n es arr' count'
       | Ok _ => Stuck "comp step arity"
       | Panic m => Panic m
@@ -434,3 +448,30 @@ Fixpoint instr_tokens (i : instr) : list string :=
   end.
 Definition seq_tokens (p : list instr) (outs : list nat) : list string :=
   flat_map instr_tokens p ++ ["outs"] ++ map nat_s outs.
+
+(* flat integer encoding of results, decoded by the Python harness *)
+Fixpoint enc_val (v : val) : list Z :=
+  match v with
+  | VInt z => [0; z]
+  | VUsize z => [1; z]
+  | VRes q => [2; q]
+  | VErr _ => [3]
+  | VSum t vs => [4; Z.of_nat t; Z.of_nat (List.length vs)]
+                 ++ (fix go (l : list val) : list Z := match l with [] => [] | x :: r => enc_val x ++ go r end) vs
+  | VTuple vs => [5; Z.of_nat (List.length vs)]
+                 ++ (fix go (l : list val) : list Z := match l with [] => [] | x :: r => enc_val x ++ go r end) vs
+  | VArr cells => [6; Z.of_nat (List.length cells)]
+                 ++ (fix go (l : list (option val)) : list Z :=
+                       match l with [] => [] | None :: r => 0 :: go r | Some x :: r => (1 :: enc_val x) ++ go r end) cells
+  end.
+Definition msg_code (m : string) : Z :=
+  if String.eqb m msg_index_oob then 1 else if String.eqb m msg_op_oob then 2
+  else if String.eqb m msg_already_borrowed then 3 else if String.eqb m msg_not_borrowed then 4
+  else if String.eqb m msg_some_borrowed then 5 else if String.eqb m msg_not_all_borrowed then 6
+  else if String.eqb m msg_unpack then 7 else 99.
+Definition enc_outcome (r : outcome (list val)) : list Z :=
+  match r with
+  | Ok vs => 0 :: Z.of_nat (List.length vs) :: flat_map enc_val vs
+  | Panic m => [1; msg_code m]
+  | Stuck _ => [2]
+  end.
